@@ -311,6 +311,29 @@ fn run(ctx: &mut Ctx) {
             }
         }
     }
+    // every character of the Basic Multilingual Plane beyond ASCII (and a few beyond the BMP) as decoration in the
+    // middle of an accepted 28-digit frame and at the end of a rejected 27-digit string: no character that is not
+    // an ASCII hexadecimal digit ever counts as a digit
+    {
+        let cfg = &cfgs[0];
+        let h = frames::df17(5, A, frames::me_ident(4, 3, frames::callsign_codes("EIN45F"))).hex();
+        let good = h.as_bytes().to_vec();
+        let short = h[..27].as_bytes().to_vec();
+        let mut chars: Vec<char> = (0x80u32..=0xFFFF).filter_map(char::from_u32).collect();
+        chars.extend(['\u{10141}', '\u{1D7D8}', '\u{1F130}', '\u{E0041}', '\u{10FF41}']);
+        for block in chars.chunks(512) {
+            job += 1;
+            if !ctx.mine(job) {
+                continue;
+            }
+            for c in block {
+                let d = c.to_string();
+                ctx.count("non-ascii-decoration");
+                judge_decorated(ctx, &env, cfg, &good, &insert(&good, 14, &d), "non-ascii");
+                judge_decorated(ctx, &env, cfg, &short, &insert(&short, 27, &d), "non-ascii");
+            }
+        }
+    }
     // a table holding an expired aircraft, the table being redrawn after every line: 80 lines that are
     // not frames must leave it untouched (nothing but an accepted frame may trigger any table change)
     job += 1;
